@@ -56,6 +56,12 @@ func TestRAC_C16(t *testing.T) {
 		{`return [1, 2]["a"];`, "error"},
 		{`return {"a": 1}[[1]];`, "error"},
 		{`a = [[1, 2], [3, 4]]; return [a[1][0], a[0][1], a[2], len(a[0])];`, "ARRAY:[3, 2, null, 2]"},
+		{"h = {\"\t\": \"tab\", \"\\\\t\": \"bs\", \"\n\": \"nl\", \"\\\\n\": \"bsn\"}; return [len(h), h[\"\t\"], h[\"\\\\t\"], h[\"\n\"], h[\"\\\\n\"]];", "ARRAY:[4, tab, bs, nl, bsn]"},
+		{`a = [80, 443]; b = ["80", "443"]; return [type(a[0]), type(b[0]), "443" in b, 443 in b, 443 in a, "443" in a];`, "ARRAY:[integer, string, true, false, true, false]"},
+		{`a = [1]; b = [1.0]; c = [true]; d = ["true"]; return [type(a[0]), type(b[0]), type(c[0]), type(d[0])];`, "ARRAY:[integer, float, boolean, string]"},
+		{`a = ["x", "y"]; b = ["x, y"]; return [len(a), len(b)];`, "ARRAY:[2, 1]"},
+		{`n = 0; foreach x in [1, 2, 3] { foreach y in [1, 2, 3] { n++; } } return n;`, "INTEGER:9"},
+		{`n = 0; foreach x in 1..3 { foreach y in 1..3 { n++; } } return n;`, "INTEGER:9"},
 		{`return [L[0], L[1], L[2], L[3], len(L), S[1], len(S), H["b"], H.a, len(H)];`, "ARRAY:[3, 1, 2, null, 3, b, 3, 2, 1, 3]"},
 	}
 	add := func(kind, script, input, want, got string) {
